@@ -305,8 +305,12 @@ class Gen:
         if c == 6 and self.allow_oor:
             self.note("real_OUT_OF_RANGE")
             return sign | r.choice([f2b(1e-300), f2b(1e300), 1, 0x000FFFFFFFFFFFFF, ((-257 + 1023) << 52), ((252 + 1023) << 52)])
+        if c == 7:
+            # the lowest hex decade of the format, [16^-65, 16^-64): exponent byte 0 with a normalised mantissa
+            self.note("real_lowest_decade")
+            return sign | (r.randrange(-260 + 1023, -256 + 1023) << 52) | r.choice([0, r.getrandbits(52), (1 << 52) - 1, 1])
         self.note("real_random")
-        return sign | (r.randrange(-256 + 1023, 252 + 1023) << 52) | r.getrandbits(52)
+        return sign | (r.randrange(-260 + 1023, 252 + 1023) << 52) | r.getrandbits(52)
     def opt(self, f, p=0.5):
         return f() if self.rng.random() < p else None
     def xy(self, n):
